@@ -84,6 +84,10 @@ func c05Leaves() []*bt.Filter {
 			out = append(out, &bt.Filter{Kind: "ts_range", T0: t0, T1: t1})
 		}
 	}
+	// bounds at the far end of the timestamp domain (reversed-timestamp idiom, "maximum" as an infinite end)
+	for _, t := range []int64{bt.MaxTS, bt.MaxTS - 1000, 9_223_372_036_855_000, 4_611_686_018_427_387_000} {
+		out = append(out, &bt.Filter{Kind: "ts_range", T0: 1000, T1: t}, &bt.Filter{Kind: "ts_range", T0: t}, &bt.Filter{Kind: "ts_range", T0: t - 1000, T1: t})
+	}
 	for _, n := range []int32{-1, 0, 1, 2, 3, 4, 100} {
 		out = append(out, fn("row_limit", n), fn("row_offset", n))
 	}
